@@ -60,10 +60,23 @@ def Key.deriveAlgorithm (k : Key) : Option Int :=
     (if k.crv = 6 then some (-8) else none)
   else none
 
+/-- `Key.paramIsBstr(label, orBool)` (key.go:551): the parameter is absent or a byte string
+    (`[]byte`, a typed nil included) or, with `orBool`, a boolean -/
+def Key.paramIsBstr (k : Key) (l : Int) (orBool : Bool) : Bool :=
+  match k.params.lookup (lbl l) with
+  | none => true
+  | some (.bytes _) => true
+  | some .bytesNil => true
+  | some (.bool _) => orBool
+  | some _ => false
+
 /-- `Key.validate(op)`: `none` = valid, `some e` = the error class -/
 def Key.validate (k : Key) (op : KOp) : Option Err :=
   let structural : Option Err :=
     if k.kty = 2 then
+      -- x and d are byte strings, y a byte string or the sign bit
+      if !k.paramIsBstr (-2) false || !k.paramIsBstr (-3) true || !k.paramIsBstr (-4) false then
+        some .invalidKey else
       let x := k.pbytes (-2); let y := k.pbytes (-3); let d := k.pbytes (-4)
       if op = .verify ∧ (x.length = 0 ∨ y.length = 0) then some .ec2NoPub
       else if op = .sign ∧ d.length = 0 then some .notPriv
@@ -73,6 +86,8 @@ def Key.validate (k : Key) (op : KOp) : Option Err :=
       else if k.crv = 4 ∨ k.crv = 5 ∨ k.crv = 6 ∨ k.crv = 7 then some .invalidKey
       else none
     else if k.kty = 1 then
+      -- x and d are byte strings
+      if !k.paramIsBstr (-2) false || !k.paramIsBstr (-4) false then some .invalidKey else
       let x := k.pbytes (-2); let d := k.pbytes (-4)
       if op = .verify ∧ x.length = 0 then some .okpNoPub
       else if op = .sign ∧ d.length = 0 then some .notPriv
